@@ -237,7 +237,10 @@ func (c *Config) flattenedKeys(active []*Config, opts []Option) []string {
 				keys = append(keys, newKeys...)
 			}
 		}
-	} else if c.IsArray() {
+	}
+	// not "else": a node may hold named and indexed settings, and a node whose
+	// last named setting has been removed still has an (empty) dictionary
+	if c.IsArray() {
 		for _, a := range c.fields.array() {
 			scfg, err := a.toConfig(normalizedOptions)
 
